@@ -871,6 +871,9 @@ impl HiArgs {
         for path in self.paths.paths.iter().skip(1) {
             builder.add(path);
         }
+        // This must be set before any explicit ignore file is added, since
+        // those are read right away.
+        builder.ignore_case_insensitive(self.ignore_file_case_insensitive);
         if !self.no_ignore_files {
             for path in self.ignore_file.iter() {
                 if let Some(err) = builder.add_ignore(path) {
@@ -893,8 +896,7 @@ impl HiArgs {
             .git_global(!self.no_ignore_vcs && !self.no_ignore_global)
             .git_ignore(!self.no_ignore_vcs)
             .git_exclude(!self.no_ignore_vcs && !self.no_ignore_exclude)
-            .require_git(!self.no_require_git)
-            .ignore_case_insensitive(self.ignore_file_case_insensitive);
+            .require_git(!self.no_require_git);
         if !self.no_ignore_dot {
             builder.add_custom_ignore_filename(".rgignore");
         }
